@@ -849,7 +849,14 @@ class SyncObj(object):
             funcID, args, newKwArgs = command
             kwargs.update(newKwArgs)
 
-        return self._idToMethod[funcID](*args, **kwargs)
+        try:
+            return self._idToMethod[funcID](*args, **kwargs)
+        except Exception as e:
+            # The command is committed and fails in the same way on every node, it must not stop
+            # the commands after it from being applied: the exception is handed to the callback
+            # as the result of the command.
+            logger.exception('replicated method raised an exception')
+            return e
 
     def __onMessageReceived(self, node, message):
 
